@@ -14,15 +14,15 @@ Local Open Scope Z_scope.
    PREPARE of the same query string to the same host h, with the statement's keyspace iff the protocol version carries
    the keyspace flag; the request's outcome is untouched *)
 Theorem C19_reprepare : forall c s i h id tag pid qs ks s1 ev1 s2 ev2,
-  open_query s i h -> stmt_for c id = Some (pid, qs, ks) -> ks_mismatch c s ks = false ->
+  open_query s i h -> stmt_for c id = Some (pid, qs, ks) -> ks_mismatch c s ks = false -> session_shut s = false ->
   step c s (Resp i (RUnprepared id tag)) = (s1, ev1) -> pool_of s h = PHealthy ->
   step c s1 (Run (length (queue s))) = (s2, ev2) ->
   ev1 = [] /\ queue s1 = queue s ++ [TReprepare h qs (if uses_keyspace_flag (pv c) then ks else None)] /\
   ev2 = [Sent h (MPrepare qs (if uses_keyspace_flag (pv c) then ks else None)) CReprepare] /\
   fin_exc s2 = fin_exc s /\ fin_res s2 = fin_res s.
 Proof.
-  intros c s i h id tag pid qs ks s1 ev1 s2 ev2 O St Km S1 Hp S2.
-  rewrite (unprepared_step c s i h id tag pid qs ks O St), Km in S1. inversion S1; subst s1 ev1. clear S1.
+  intros c s i h id tag pid qs ks s1 ev1 s2 ev2 O St Km Sh S1 Hp S2.
+  rewrite (unprepared_step c s i h id tag pid qs ks O St), Km, (submit_open (done_i s i) _ Sh) in S1. inversion S1; subst s1 ev1. clear S1.
   destruct (run_reprepare c (push_task (done_i s i) (TReprepare h qs (if uses_keyspace_flag (pv c) then ks else None)))
               (length (queue s)) h qs (if uses_keyspace_flag (pv c) then ks else None)) as (s2' & R & _ & _ & E1 & E2).
   - cbn [queue push_task done_i set_attempts]. apply nth_error_app_last.
@@ -34,13 +34,13 @@ Print Assumptions C19_reprepare.
 (* PREPARED with the same id (or the future carries no prepared statement) from host h: when the executor runs the task
    (request not failed meanwhile, h usable), exactly one message goes out: the ORIGINAL request, to the same host h *)
 Theorem C19_resend : forall c s j h id s1 ev1 s2 ev2,
-  open_prepare s j h -> id_matches c id -> fin_exc s = None ->
+  open_prepare s j h -> id_matches c id -> fin_exc s = None -> session_shut s = false ->
   step c s (Resp j (RPrepared id)) = (s1, ev1) -> pool_of s h = PHealthy ->
   step c s1 (Run (length (queue s))) = (s2, ev2) ->
   ev1 = [] /\ ev2 = [Sent h (MOrig (msg_cl s)) CResend] /\ fin_exc s2 = None.
 Proof.
-  intros c s j h id s1 ev1 s2 ev2 O M E S1 Hp S2.
-  rewrite (prepared_step c s j h _ O) in S1. inversion S1; subst s1 ev1. clear S1.
+  intros c s j h id s1 ev1 s2 ev2 O M E Sh S1 Hp S2.
+  rewrite (prepared_step c s j h _ O), (submit_open (done_i s j) _ Sh) in S1. inversion S1; subst s1 ev1. clear S1.
   destruct (run_after_prepare_ok c (push_task (done_i s j) (TAfterPrepare h (RPrepared id))) (length (queue s)) h id)
     as (s2' & R & _ & _ & E2); auto.
   - cbn [queue push_task done_i set_attempts]. apply nth_error_app_last.
@@ -68,6 +68,22 @@ Theorem C19_failure_is_the_outcome : forall s x, fin_res s = None -> fin_exc s =
   fail_with s x = set_exc s x /\ fin_exc (fail_with s x) = Some x.
 Proof. intros s x R E. rewrite (fail_with_fresh s x R E). split; reflexivity. Qed.
 Print Assumptions C19_failure_is_the_outcome.
+
+(* Session.shutdown() before the follow-up work is accepted: the re-prepare / the re-send is refused, the request (if it has no
+   outcome yet) fails with ConnectionShutdown, nothing is queued and nothing is sent *)
+Theorem C19_shutdown_refuses_followup : forall c s,
+  (forall i h id tag pid qs ks, open_query s i h -> stmt_for c id = Some (pid, qs, ks) -> ks_mismatch c s ks = false ->
+     session_shut s = true -> step c s (Resp i (RUnprepared id tag)) = (fail_with (done_i s i) XShutdown, [])) /\
+  (forall j h r, open_prepare s j h -> session_shut s = true ->
+     step c s (Resp j r) = (fail_with (done_i s j) XShutdown, [])).
+Proof.
+  intros c s. split.
+  - intros i h id tag pid qs ks O St Km Sh. rewrite (unprepared_step c s i h id tag pid qs ks O St), Km.
+    unfold submit. change (session_shut (done_i s i)) with (session_shut s). rewrite Sh. reflexivity.
+  - intros j h r O Sh. rewrite (prepared_step c s j h r O). unfold submit.
+    change (session_shut (done_i s j)) with (session_shut s). rewrite Sh. reflexivity.
+Qed.
+Print Assumptions C19_shutdown_refuses_followup.
 
 (* an error answer to the PREPARE (server error, unexpected message) fails the request with that error, nothing is sent;
    and once the request has failed, the after-prepare task sends nothing either *)
